@@ -3,9 +3,13 @@ extern crate lazy_static;
 use iced_x86::{Register, Register::*};
 
 use lazy_static::lazy_static;
+#[cfg(not(any(kani, ax_verif)))]
 use rand::Rng;
 use serde::{Deserialize, Serialize};
+#[cfg(not(kani))]
 use std::collections::{HashMap, HashSet};
+#[cfg(kani)]
+use crate::helpers::vmap::{HashMap, HashSet};
 
 use wasm_bindgen::prelude::wasm_bindgen;
 
@@ -111,10 +115,15 @@ lazy_static! {
 pub(crate) fn randomized_register_set(rip_value: u64) -> HashMap<SupportedRegister, u64> {
     let mut map = HashMap::new();
 
+    #[cfg(not(any(kani, ax_verif)))]
     let mut rng = rand::thread_rng();
 
     for register in GENERAL_PURPOSE_REGISTERS.iter() {
+        #[cfg(not(any(kani, ax_verif)))]
         let value = rng.gen::<u64>();
+        // Verification hook H4: the RNG's contract is "an arbitrary value"
+        #[cfg(any(kani, ax_verif))]
+        let value = crate::helpers::vnondet::any::<u64>();
         map.insert(*register, value & 0xffff_ffff);
     }
 
@@ -126,10 +135,15 @@ pub(crate) fn randomized_register_set(rip_value: u64) -> HashMap<SupportedRegist
 pub(crate) fn randomized_xmm_set() -> HashMap<SupportedRegister, u128> {
     let mut map = HashMap::new();
 
+    #[cfg(not(any(kani, ax_verif)))]
     let mut rng = rand::thread_rng();
 
     for register in XMM_REGISTERS.iter() {
+        #[cfg(not(any(kani, ax_verif)))]
         let value = rng.gen::<u128>();
+        // Verification hook H4: the RNG's contract is "an arbitrary value"
+        #[cfg(any(kani, ax_verif))]
+        let value = crate::helpers::vnondet::any::<u128>();
         map.insert(*register, value);
     }
 
